@@ -190,7 +190,8 @@ def gen_socket_case(rng):
         msgs[0] = b"s" + rng.choice([b"nok", b"not_allowed", b"alive", b"bogus", b"", b"\xff"]); conforming, why = False, "status"
     elif r < 0.55:
         msgs[2] = b"a" + rng.choice([digest(gen, cookie + b"x"), digest((gen + 1) % 2**32, cookie), digest(their, cookie), bytes(16), digest(gen, cookie)[:15]])
-        conforming, why = False, "digest"
+        if msgs[2] != ack:      # (the peer's own challenge may happen to equal ours: then that digest is the right one)
+            conforming, why = False, "digest"
     elif r < 0.63:
         msgs[k] = rng.choice([b"", b"x" + msgs[k][1:], msgs[k][:1], msgs[k][:len(msgs[k]) // 2]]) if k != 0 else rng.choice([b"", b"x" + msgs[k][1:], b"ok"])
         conforming, why = False, "malformed"
